@@ -1,7 +1,7 @@
 (* C02 — property theorems (statements only; proofs live in Acme.C02.Proofs*, specification
    vocabulary in Acme.C02.Spec, the model in Acme.C02.Model). *)
 From Coq Require Import ZArith List Bool.
-From Acme.C02 Require Import Model Spec ProofsBits ProofsFilters Proofs History HistoryProofs.
+From Acme.C02 Require Import Model Spec ProofsBits ProofsFilters Proofs History HistoryProofs ComposeC01.
 Import ListNotations.
 Local Open Scope Z_scope.
 
@@ -56,6 +56,22 @@ Theorem decode_be_spec : forall size s data,
 Proof. exact Proofs.decode_be_spec. Qed.
 Print Assumptions decode_be_spec.
 
+(* the excluded zone, specified: a big-endian signal that fits in one byte is read exactly like a
+   little-endian signal at the same start (LSB-anchored offset), whatever its placement ... *)
+Theorem decode_be_one_byte_spec : forall size s data,
+  sig_ok size s -> s_be s = true -> one_byte s = true -> bytes_ok data ->
+  sig_raw s data = raw_le (s_start s) (s_size s) data.
+Proof. exact Proofs.decode_be_one_byte_spec. Qed.
+Print Assumptions decode_be_one_byte_spec.
+
+(* ... and for EVERY excluded shape that reading is wrong on some payload *)
+Theorem decode_be_one_byte_refuted_all : forall size s,
+  sig_ok size s -> d08 s = true ->
+  exists data, bytes_ok data /\ s_end s <= nbits data /\
+               sig_raw s data <> raw_be (s_start s) (s_size s) data.
+Proof. exact Proofs.decode_be_one_byte_refuted_all. Qed.
+Print Assumptions decode_be_one_byte_refuted_all.
+
 Theorem decode_be_one_byte_refuted :
   exists s data, sig_ok 8 s /\ s_be s = true /\ d08 s = true /\ bytes_ok data /\ 8 <= nbits data /\
     sig_raw s data = 0 /\ raw_be (s_start s) (s_size s) data = 7.
@@ -69,7 +85,7 @@ Proof. exact Proofs.masks_cover. Qed.
 Print Assumptions masks_cover.
 
 Theorem masks_disjoint : forall size be l a b f g,
-  wf size l -> uniform be l -> Forall (fun s => d08 s = false) l ->
+  wf size l -> uniform be l -> d08 a = false -> d08 b = false ->
   In a l -> In b l -> s_id a <> s_id b ->
   In f (sig_filters a) -> In g (sig_filters b) -> f_byte f = f_byte g ->
   Z.land (f_mask f) (f_mask g) = 0.
@@ -107,13 +123,49 @@ Theorem layout_of_geometry : forall bits ops,
 Proof. exact HistoryProofs.layout_of_geometry. Qed.
 Print Assumptions layout_of_geometry.
 
-(* the cached slice is not such a description: the two ways it went stale before 11d2260 *)
+(* the cached slice is not such a description while what Filters() returns is: the two ways the
+   cache went stale before 11d2260 (placement into a big-endian message; size change of a signal) *)
 Theorem cache_stale_after_append :
-  exists ops, m_cache (run 64 ops) <> gen_filters (layout_of (run 64 ops)).
+  let m := run 64 [OSetByteOrder true; OAppend 0 15 KStandard false] in
+  m_cache m <> gen_filters (layout_of m) /\ filters m = gen_filters (layout_of m).
 Proof. exact HistoryProofs.cache_stale_after_append. Qed.
 Print Assumptions cache_stale_after_append.
 
 Theorem cache_stale_after_resize_of_signal :
-  exists ops, m_cache (run 64 ops) <> gen_filters (layout_of (run 64 ops)).
+  let m := run 64 [OAppend 0 7 KStandard false; OSetGeom 0 0 12] in
+  m_cache m <> gen_filters (layout_of m) /\ filters m = gen_filters (layout_of m).
 Proof. exact HistoryProofs.cache_stale_after_resize_of_signal. Qed.
 Print Assumptions cache_stale_after_resize_of_signal.
+
+(* --- composition with C01 (Acme.C01 / Acme.C07, imported read-only): the premise `wf` of the
+       theorems above holds for every message layout of every state reachable by C01's 27 payload
+       operations under C01's hypotheses ok_hist_w (which exclude C01's open findings D03, D20, D35,
+       D36), for signals of at most 64 bits; byte order and kinds are arbitrary parameters *)
+Theorem layout_wf_reachable : forall ops m be kind,
+  Acme.C07.Proofs.ok_hist_w ops ->
+  Forall (fun x => Acme.C01.Model.sz (Acme.C01.Model.run ops) x <= 64) (Acme.C01.State.glay (Acme.C01.Model.run ops) m) ->
+  wf (8 * Acme.C01.State.gbytes (Acme.C01.Model.run ops) m) (c02_layout be kind (Acme.C01.Model.run ops) m).
+Proof. exact ComposeC01.layout_wf_reachable. Qed.
+Print Assumptions layout_wf_reachable.
+
+Theorem decode_reachable : forall ops m be kind data,
+  Acme.C07.Proofs.ok_hist_w ops ->
+  Forall (fun x => Acme.C01.Model.sz (Acme.C01.Model.run ops) x <= 64) (Acme.C01.State.glay (Acme.C01.Model.run ops) m) ->
+  bytes_ok data -> 8 * Acme.C01.State.gbytes (Acme.C01.Model.run ops) m <= nbits data ->
+  let l := c02_layout be kind (Acme.C01.Model.run ops) m in
+  decode l data = map (fun s => (s_id s, sig_raw s data)) (filter not_mux l) /\
+  (forall s, In s l -> be = false -> sig_raw s data = raw_le (s_start s) (s_size s) data) /\
+  (forall s, In s l -> be = true -> d08 s = false -> sig_raw s data = raw_be (s_start s) (s_size s) data) /\
+  (forall s, In s l -> be = true -> one_byte s = true -> sig_raw s data = raw_le (s_start s) (s_size s) data).
+Proof. exact ComposeC01.decode_reachable. Qed.
+Print Assumptions decode_reachable.
+
+Theorem masks_reachable : forall ops m be kind,
+  Acme.C07.Proofs.ok_hist_w ops ->
+  Forall (fun x => Acme.C01.Model.sz (Acme.C01.Model.run ops) x <= 64) (Acme.C01.State.glay (Acme.C01.Model.run ops) m) ->
+  let l := c02_layout be kind (Acme.C01.Model.run ops) m in
+  (forall s, In s l -> fold_right (fun f a => popcount8 (f_mask f) + a) 0 (sig_filters s) = s_size s) /\
+  (forall a b f g, In a l -> In b l -> s_id a <> s_id b -> d08 a = false -> d08 b = false ->
+     In f (sig_filters a) -> In g (sig_filters b) -> f_byte f = f_byte g -> Z.land (f_mask f) (f_mask g) = 0).
+Proof. exact ComposeC01.masks_reachable. Qed.
+Print Assumptions masks_reachable.
